@@ -42,7 +42,7 @@ RULE = (
     "set and the body is within a factor 3 of it."
 )
 ASSUMPTIONS = [
-    "decoder future depends only on (state, buffer, _search_position, _parts_decoded, complete) - asserted (C01 clone)",
+    "decoder future depends only on its instance attributes (C01's clone and state key are generic over vars())",
     "callers pump next_event() until NEED_DATA after each receive_data (what MultiPartParser does)",
     "ground truth for 'parsing without limits' is the part list the body was built from (C01 establishes that the "
     "unlimited decoder returns it on every schedule)",
@@ -217,8 +217,8 @@ def explore_limited(body, mfms, max_parts, R):
     Returns (states, transitions, finals{terminal output: schedule}, monitor violations[(sig, schedule)])."""
     n = len(body)
     d0 = mp.MultipartDecoder(B, mfms, max_parts=max_parts)
-    if set(vars(d0)) != c01.DECODER_ATTRS:
-        raise core.Broken(f"MultipartDecoder attributes changed: {sorted(set(vars(d0)) ^ c01.DECODER_ATTRS)}")
+    if not hasattr(d0, "buffer"):
+        raise core.Broken("MultipartDecoder no longer has a .buffer: the memory monitor cannot observe it")
     seen = {c01.state_key(d0, 0, ())}
     queue = collections.deque([(0, d0, (), ())])
     trans = 0
@@ -578,6 +578,110 @@ def judge_form(cfg, truth, got, inp):
     return None
 
 
+# ------------------------------------------------------------------ H: access histories on one Request
+
+H_ACCESSES = ["get_data", "get_data-nocache", "get_data-parse", "data", "form", "files", "values"]
+
+
+def h_bodies():
+    mixed = [fld(b"a", b"v"), fil(b"f", b"w"), fld(b"b", b"2345")]
+    return [
+        ("url", "application/x-www-form-urlencoded", b"a=1&b=2345&c=9",
+         (("a", "1"), ("b", "2345"), ("c", "9")), ()),
+        ("multipart", "multipart/form-data; boundary=bnd", c01.build_body(mixed, B),
+         (("a", "v"), ("b", "2345")), (("f", "f.txt"),)),
+    ]
+
+
+def h_expectation(n, with_cl, terminated, mcl):
+    """-> (set of allowed whole-body outcomes: 'RETL' | 'body' | 'empty')"""
+    if with_cl and mcl is not None and n > mcl:
+        return {"RETL"}
+    if not (with_cl or terminated):
+        return {"empty"}
+    if terminated and mcl is not None:
+        if n > mcl:
+            return {"RETL"}
+        if n == mcl:
+            return {"RETL", "body"}
+    return {"body"}
+
+
+def run_h(cfgh):
+    """cfgh = (bi, with_cl, terminated, mcl, accesses) -> outcomes [(kind, value) | 'RETL' | 'EXC:..']"""
+    bi, with_cl, terminated, mcl, accesses = cfgh
+    _d, ctype, body, _form, _files = h_bodies()[bi]
+    inp = In(body, E4.Chooser(()))
+    environ = {"REQUEST_METHOD": "POST", "wsgi.input": inp, "CONTENT_TYPE": ctype, "QUERY_STRING": ""}
+    if with_cl:
+        environ["CONTENT_LENGTH"] = str(len(body))
+    if terminated:
+        environ["wsgi.input_terminated"] = True
+
+    class Rq(Request):
+        max_content_length = mcl
+
+    rq = Rq(environ)
+    out = []
+    for a in accesses:
+        E4.arm(CPU_GUARD)
+        try:
+            if a == "get_data":
+                r = ("bytes", bytes(rq.get_data()))
+            elif a == "get_data-nocache":
+                r = ("bytes", bytes(rq.get_data(cache=False)))
+            elif a == "get_data-parse":
+                r = ("bytes", bytes(rq.get_data(parse_form_data=True)))
+            elif a == "data":
+                r = ("bytes", bytes(rq.data))
+            elif a == "form":
+                r = ("form", tuple(rq.form.items(multi=True)))
+            elif a == "values":
+                r = ("form", tuple(rq.values.items(multi=True)))
+            else:
+                r = ("files", tuple((k, v.filename) for k, v in rq.files.items(multi=True)))
+            out.append(r)
+        except RequestEntityTooLarge:
+            out.append("RETL")
+        except E4.Hang:
+            out.append("EXC:Hang")
+        except Exception as e:  # noqa: BLE001
+            out.append("EXC:" + type(e).__name__)
+        finally:
+            E4.disarm()
+    return out
+
+
+def judge_h(cfgh, outs):
+    bi, with_cl, terminated, mcl, accesses = cfgh
+    _d, _ctype, body, form, files = h_bodies()[bi]
+    exp = h_expectation(len(body), with_cl, terminated, mcl)
+    want = {"bytes": body, "form": form, "files": files}
+    refused = False
+    for i, (a, o) in enumerate(zip(accesses, outs)):
+        if isinstance(o, str):
+            if o != "RETL":
+                return "history:unrelated-exception:" + o
+            if "RETL" not in exp:
+                return "history:RequestEntityTooLarge-not-justified"
+            refused = True
+            continue
+        kind, val = o
+        if not val:
+            if i == 0 and exp == {"RETL"}:
+                return "history:body-over-max_content_length-not-refused"
+            if i == 0 and exp == {"body"} and a in ("get_data", "get_data-nocache", "data", "form", "values"):
+                return "history:first-access-empty"
+            continue                      # empty because consumed / nothing of that kind / nothing readable
+        if refused or exp == {"RETL"}:
+            return "history:body-derived-data-for-body-over-max_content_length"
+        if exp == {"empty"}:
+            return "history:data-from-unreadable-input"
+        if val != want[kind]:
+            return "history:access-result-differs-from-single-access"
+    return None
+
+
 # ------------------------------------------------------------------ units
 
 def tier_params(tier):
@@ -644,6 +748,10 @@ def units(tier):
             for fi in range(nmb):
                 for mcl_kind in ("none", "small", "exact", "large"):
                     us.append(("F", L, fi, mcl_kind))
+    for bi in range(len(h_bodies())):
+        for mcl_kind in ("none", "small", "exact", "large"):
+            for with_cl in (True, False):
+                us.append(("H", bi, mcl_kind, with_cl))
     return us
 
 
@@ -762,6 +870,25 @@ def run_unit(unit, R, tier):
                                     R.violation("P:short-read:" + sig,
                                                 {"kind": "P", "L": L, "descr": descr, "body": body, "mfms": mfms,
                                                  "max_parts": max_parts, "buffer_size": bs, "dev": {ci: k}, "sig": sig})
+    elif kind == "H":
+        import itertools
+        _k, bi, mcl_kind, with_cl = unit
+        n = len(h_bodies()[bi][2])
+        mcl = {"none": None, "small": n // 2, "exact": n, "large": 10 * n}[mcl_kind]
+        for terminated in (False, True):
+            for accesses in itertools.chain.from_iterable(itertools.product(H_ACCESSES, repeat=k) for k in (1, 2, 3)):
+                cfgh = (bi, with_cl, terminated, mcl, accesses)
+                R.ev()
+                R.count("executions")
+                R.count("histories")
+                outs = run_h(cfgh)
+                for o in outs:
+                    R.use("H:" + (o if isinstance(o, str) else ("data" if o[1] else "empty")))
+                if len(accesses) > 1:
+                    R.nontrivial(("H", cfgh))
+                sig = judge_h(cfgh, outs)
+                if sig:
+                    R.violation("H:" + sig, {"kind": "H", "cfg": cfgh, "sig": sig, "outcomes": outs})
     else:
         _k, L, fi, mcl_kind = unit
         descr, ctype, body, truth = form_bodies(L)[fi]
@@ -825,7 +952,7 @@ def run_unit(unit, R, tier):
 def finalize(R, tier):
     need = {"family:field", "family:file", "family:tiny", "family:preamble", "family:bigheader", "family:nodelim",
             "family:two-fields", "D:ok", "D:RETL", "D:EXC", "D:receive-RETL", "P:ok", "P:RETL", "P:EXC",
-            "F:ok", "F:RETL", "F:url", "F:multipart", "F:declared-length-lies", "family:state", "family:order", "F:via-request-cached", "F:via-request-instance",
+            "F:ok", "F:RETL", "F:url", "F:multipart", "F:declared-length-lies", "family:state", "family:order", "H:data", "H:empty", "H:RETL", "F:via-request-cached", "F:via-request-instance",
             "F:via-parser-not-silent", "F:via-request-get-data-parse", "F:via-parser-parse-direct", "F:notform", "F:ill", "F:mcl-none", "F:mcl-small", "F:mcl-exact", "F:mcl-large"}
     missing = need - R.used
     if missing:
@@ -881,6 +1008,17 @@ def replay(rec):
                 f"buffer_size={rec['buffer_size']}).parse(body) short_reads={dev}\nbody ({rec['descr']}) = "
                 f"{rec['body']!r}\nlargest decoder buffer after a receive_data = {SpyDecoder.peak}\n"
                 f"result = {core.show(got)}\nviolation = {sig}")
+        return sig == rec["sig"], text
+    if k == "H":
+        bi, with_cl, terminated, mcl, accesses = rec["cfg"]
+        cfgh = (bi, with_cl, terminated, mcl, tuple(accesses))
+        outs = run_h(cfgh)
+        sig = judge_h(cfgh, outs)
+        d, ctype, body, _f, _fl = h_bodies()[bi]
+        text = (f"one Request: CONTENT_TYPE={ctype!r} CONTENT_LENGTH={'present' if with_cl else 'absent'} "
+                f"input_terminated={terminated} max_content_length={mcl} body ({len(body)} bytes) = {body!r}\n"
+                f"accesses (exceptions swallowed) = {list(accesses)}\noutcomes = {outs}\n"
+                f"a single access must give {sorted(h_expectation(len(body), with_cl, terminated, mcl))}\nviolation = {sig}")
         return sig == rec["sig"], text
     if k == "F":
         cfg = tuple(rec["cfg"])
